@@ -100,6 +100,34 @@ def tri(nodes):
 
 
 
+def _newton_system(nodes1, nodes2, s, t, double):
+    """the evaluators of the two Newton systems of full_newton_nonzero, built exactly as that function builds them"""
+    n1, n2 = nodes1.shape[1], nodes2.shape[1]
+    d1 = (n1 - 1) * (nodes1[:, 1:] - nodes1[:, :-1])
+    d2 = (n2 - 1) * (nodes2[:, 1:] - nodes2[:, :-1])
+    if not double:
+        fn = hz_ih.NewtonSimpleRoot(nodes1, d1, nodes2, d2)
+    else:
+        dd1 = (n1 - 2) * (d1[:, 1:] - d1[:, :-1])
+        dd2 = (n2 - 2) * (d2[:, 1:] - d2[:, :-1])
+        fn = hz_ih.NewtonDoubleRoot(nodes1, d1, dd1, nodes2, d2, dd2)
+    lhs, rhs = fn(s, t)
+    return [[] if lhs is None else np.asfortranarray(lhs), np.asfortranarray(rhs)]
+
+
+def _edges_after_use(n):
+    """the edges of a triangle that has been USED first (area, validity, evaluation, subdivision, elevation - whatever of it
+    the shape supports): still the sides of the same surface"""
+    t = tri(n)
+    for use in (lambda: t.area, lambda: t.is_valid, lambda: t.evaluate_cartesian(0.25, 0.25), lambda: t.subdivide(),
+                lambda: t.elevate(), lambda: t.evaluate_barycentric(0.5, 0.25, 0.25)):
+        try:
+            use()
+        except Exception:  # pylint: disable=broad-except
+            pass
+    return [e.nodes for e in t.edges]
+
+
 def _mut_probe(kind, nodes, method, args):
     """call a public method on a shape built with copy=False from an array we keep; report every caller-visible array whose
     bytes changed (the receiver's own array, the array it was built from, the cached edges, argument shapes' arrays)"""
@@ -128,6 +156,9 @@ def _mut_probe(kind, nodes, method, args):
     if kind == "triangle" and method != "edges":
         e = obj.edges
         for j, c in enumerate(e):
+            watched["edge %d handed out before the call" % j] = c._nodes
+        # the cache itself (the accessor hands out copies)
+        for j, c in enumerate(getattr(obj, "_edges", None) or ()):
             watched["cached edge %d" % j] = c._nodes
     before = {k: v.tobytes() for k, v in watched.items()}
     exc = None
@@ -142,7 +173,23 @@ def _mut_probe(kind, nodes, method, args):
     except Exception as e_:  # pylint: disable=broad-except
         exc = type(e_).__name__
     changed = sorted(k for k, v in watched.items() if v.tobytes() != before[k])
-    return [changed, exc]
+    # second object on which nothing was touched before the call (no edge cache yet): what it shows AFTER the call must be what
+    # a fresh shape built from the same numbers shows
+    if kind == "triangle":
+        orig = np.array(nodes, order="F", copy=True)
+        obj2 = build(kind, np.array(orig, order="F", copy=True))
+        try:
+            m2 = getattr(obj2, method)
+            _ = m2(*pyargs) if callable(m2) else m2
+        except Exception:  # pylint: disable=broad-except
+            pass
+        fresh = build(kind, np.array(orig, order="F", copy=True))
+        if obj2.nodes.tobytes() != orig.tobytes():
+            changed.append("nodes of the receiver after the call (no edges cached before)")
+        for j, (c2, cf) in enumerate(zip(obj2.edges, fresh.edges)):
+            if c2.nodes.tobytes() != cf.nodes.tobytes():
+                changed.append("edge %d read after the call differs from the edge of a fresh triangle" % j)
+    return [sorted(changed), exc]
 
 
 OPS = {
@@ -194,6 +241,7 @@ OPS = {
     "Triangle.evaluate_cartesian": lambda n, s, t, verify=True: tri(n).evaluate_cartesian(s, t, verify=verify),
     "Triangle.evaluate_cartesian_multi": lambda n, p, verify=True: tri(n).evaluate_cartesian_multi(p, verify=verify),
     "Triangle.edges": lambda n: [e.nodes for e in tri(n).edges],
+    "Triangle.edges_after_use": lambda n: _edges_after_use(n),
     "Triangle.subdivide": lambda n: [t.nodes for t in tri(n).subdivide()],
     "Triangle.elevate": lambda n: tri(n).elevate().nodes,
     "Triangle.is_valid": lambda n: bool(tri(n).is_valid),
@@ -258,6 +306,8 @@ OPS = {
     "Curve.self_intersections_limited": lambda n: _limited(lambda: curve(n).self_intersections()),
     "shim.newton_refine_intersect": lambda s, n1, t, n2: list(_intersection_helpers.newton_refine(s, n1, t, n2)),
     "hazmat.newton_refine_intersect": lambda s, n1, t, n2: list(hz_ih.newton_refine(s, n1, t, n2)),
+    "hazmat.newton_simple_root": lambda n1, n2, s, t: _newton_system(n1, n2, s, t, False),
+    "hazmat.newton_double_root": lambda n1, n2, s, t: _newton_system(n1, n2, s, t, True),
     "shim.newton_refine_triangle": lambda n, d, x, y, s, t: list(_triangle_intersection.newton_refine(n, d, x, y, s, t)),
     "hazmat.newton_refine_triangle": lambda n, d, x, y, s, t: list(hz_ti.newton_refine(n, d, x, y, s, t)),
     "shim.locate_point_triangle": lambda n, d, x, y: _triangle_intersection.locate_point(n, d, x, y),
